@@ -51,20 +51,21 @@ func (h Handle) Coq() string {
 
 // Opts describes sqlgen.SelectOptions (Values are int64).
 type Opts struct {
-	Where     string   `json:"where"`
-	Values    []int64  `json:"values"`
-	OrderBy   string   `json:"order_by"`
-	Limit     int      `json:"limit"`
-	ForUpdate bool     `json:"for_update"`
-	ForceIdx  []string `json:"force_index,omitempty"`
-	UseIdx    []string `json:"use_index,omitempty"`
+	Where        string   `json:"where"`
+	Values       []int64  `json:"values"`
+	OrderBy      string   `json:"order_by"`
+	Limit        int      `json:"limit"`
+	ForUpdate    bool     `json:"for_update"`
+	AllowNoIndex bool     `json:"allow_no_index,omitempty"` // only matters to the EXPLAIN check; not part of the statement
+	ForceIdx     []string `json:"force_index,omitempty"`
+	UseIdx       []string `json:"use_index,omitempty"`
 }
 
 func (o *Opts) Go() *sqlgen.SelectOptions {
 	if o == nil {
 		return nil
 	}
-	so := &sqlgen.SelectOptions{Where: o.Where, OrderBy: o.OrderBy, Limit: o.Limit, ForUpdate: o.ForUpdate,
+	so := &sqlgen.SelectOptions{Where: o.Where, OrderBy: o.OrderBy, Limit: o.Limit, ForUpdate: o.ForUpdate, AllowNoIndex: o.AllowNoIndex,
 		ForceIndex: append([]string{}, o.ForceIdx...), UseIndex: append([]string{}, o.UseIdx...)}
 	for _, v := range o.Values {
 		so.Values = append(so.Values, v)
@@ -249,6 +250,32 @@ func RunBatched(db *sqlgen.DB, t *TableDesc, filters []sqlgen.Filter) *BatchResu
 // RunBatchedOn is RunBatched with one handle per caller; the handles must derive from the same DB (they
 // share its batch function) and all callers use one batching context.
 func RunBatchedOn(dbs []*sqlgen.DB, t *TableDesc, filters []sqlgen.Filter) *BatchResult {
+	return RunBatchedCalls(dbs, t, filters, len(filters), nil)
+}
+
+// Call is one caller's DB method: it returns the rows it received.
+type Call func(ctx context.Context, db *sqlgen.DB, filter sqlgen.Filter) ([]interface{}, error)
+
+// QueryCall is DB.Query(ctx, &rows, filter, opts()) -- opts is called per use, sqlgen modifies the options.
+func QueryCall(t *TableDesc, opts func() *sqlgen.SelectOptions) Call {
+	return func(ctx context.Context, db *sqlgen.DB, f sqlgen.Filter) ([]interface{}, error) {
+		out := t.NewResultSlice()
+		if err := db.Query(ctx, out, f, opts()); err != nil {
+			return nil, err
+		}
+		var rows []interface{}
+		s := reflect.ValueOf(out).Elem()
+		for k := 0; k < s.Len(); k++ {
+			rows = append(rows, s.Index(k).Interface())
+		}
+		return rows, nil
+	}
+}
+
+// RunBatchedCalls is RunBatchedOn with one method per caller (nil = Query without options); expect is the
+// number of callers expected to reach the batch function (used as its MaxSize so that the batch runs as
+// soon as they have all arrived; whatever happens is observed).
+func RunBatchedCalls(dbs []*sqlgen.DB, t *TableDesc, filters []sqlgen.Filter, expect int, calls []Call) *BatchResult {
 	db := dbs[0]
 	n := len(filters)
 	res := &BatchResult{Errs: make([]error, n), Panics: make([]string, n), Rows: make([][]interface{}, n)}
@@ -281,7 +308,10 @@ func RunBatchedOn(dbs []*sqlgen.DB, t *TableDesc, filters []sqlgen.Filter) *Batc
 		res.Arrival = append(res.Arrival, who)
 		return origMany(ctx, items)
 	}
-	bf.MaxSize, bf.WaitInterval, bf.MaxDuration = n, 40*time.Millisecond, 3*time.Second
+	if expect < 1 {
+		expect = 1
+	}
+	bf.MaxSize, bf.WaitInterval, bf.MaxDuration = expect, 40*time.Millisecond, 3*time.Second
 	defer func() { bf.Many, bf.MaxSize, bf.WaitInterval, bf.MaxDuration = origMany, origMax, origWait, origDur }()
 
 	ctx := batch.WithBatching(context.Background())
@@ -290,13 +320,18 @@ func RunBatchedOn(dbs []*sqlgen.DB, t *TableDesc, filters []sqlgen.Filter) *Batc
 		wg.Add(1)
 		go func(i int) {
 			defer wg.Done()
-			out := t.NewResultSlice()
-			res.Errs[i], res.Panics[i] = Safely(func() error { return dbs[i].Query(ctx, out, filters[i], nil) })
+			call := QueryCall(t, func() *sqlgen.SelectOptions { return nil })
+			if calls != nil && calls[i] != nil {
+				call = calls[i]
+			}
+			var rows []interface{}
+			res.Errs[i], res.Panics[i] = Safely(func() error {
+				var err error
+				rows, err = call(ctx, dbs[i], filters[i])
+				return err
+			})
 			if res.Errs[i] == nil && res.Panics[i] == "" {
-				s := reflect.ValueOf(out).Elem()
-				for k := 0; k < s.Len(); k++ {
-					res.Rows[i] = append(res.Rows[i], s.Index(k).Interface())
-				}
+				res.Rows[i] = rows
 			}
 		}(i)
 	}
